@@ -322,7 +322,14 @@ class _ListDict_(object):
                 #nearly everything was just removed, so the running sum may be
                 #dominated by roundoff.  Recalculate it (exactly 0 when empty).
                 self.update_total_weight()
-            if weight == self.max_weight:  
+            if len(self) == 0:
+                #empty again: forget the largest weight seen so far.  Otherwise
+                #the rejection sampling keeps comparing with it, and an item
+                #inserted later with a much smaller weight is (almost) never
+                #accepted.
+                self.max_weight = 0
+                self.max_weight_count = 0
+            elif weight == self.max_weight:  
                 #if we find ourselves in this case often
                 #it may be better just to let max_weight be the
                 #largest weight *ever* encountered, even if all remaining weights are less
